@@ -104,6 +104,10 @@ impl SchedHook for Ctl {
         g.parts[idx].ready = None;
         g.parts[idx].steps += 1;
     }
+
+    fn release(&self) {
+        self.deactivate();
+    }
 }
 
 impl Ctl {
